@@ -78,14 +78,18 @@ class CompoundPixelRegion(PixelRegion):
 
         # Pad mask1.data and mask2.data to get the same shape
         padded_data = list()
-        for mask in (mask1, mask2):
+        for mask, region in ((mask1, self.region1), (mask2, self.region2)):
             pleft = abs(mask.bbox.ixmin - bbox.ixmin)
             pright = abs(bbox.ixmax - mask.bbox.ixmax)
             ptop = abs(bbox.iymax - mask.bbox.iymax)
             pbottom = abs(mask.bbox.iymin - bbox.iymin)
-            padded_data.append(np.pad(mask.data,
-                                      ((pbottom, ptop), (pleft, pright)),
-                                      'constant'))
+            padded = np.pad(mask.data, ((pbottom, ptop), (pleft, pright)),
+                            'constant')
+            if not region.meta.get('include', True):
+                # an excluded operand contributes its complement, as it
+                # does in contains()
+                padded = 1 - padded
+            padded_data.append(padded)
 
         data = self.operator(*np.array(padded_data, dtype=int))
         return RegionMask(data=data, bbox=bbox)
